@@ -113,11 +113,25 @@ def runR : State → Nat → Nat → List Op → Option (State × Nat × Nat)
     | some (s', out) =>
       runR s' (C + discarded s o out) (Nat.max W (match o with | .recvWindow n => n | _ => 0)) os
 
-/-- F12 witness: window 64 shrunk to 0, then raised to 2522: the peer may send 2586 bytes -/
+/-- the former F12 history: window 64 shrunk to 0, then raised to 2522, then 2555 bytes at once -/
 def F12_ops : List Op :=
   [ .params ⟨20642, 0, 1073741824, 0, 2, 176⟩, .recvWindow 0, .recvWindow 2522, .stream 6 0 2555 true ]
 
 def F12_config : Config := ⟨.server, 10, 2, 38, 64, 4611686018427387901⟩
+
+/-- the former F14 history: 14 bytes received, the stream stopped (credited), then reset with final
+    size 14, then 39 bytes on another stream -/
+def F14_ops : List Op :=
+  [ .params ⟨100, 100, 100, 2, 2, 100⟩, .stream 0 0 14 false, .stop 0 7, .rst 0 9 14, .stream 4 0 39 false ]
+
+def F14_config : Config := ⟨.server, 2, 2, 100, 25, 1000⟩
+
+/-- the former F15 history: 59 bytes received, the stream reset with final size 59 (credited), then
+    stopped by the application, then 118 bytes on another stream -/
+def F15_ops : List Op :=
+  [ .params ⟨100, 100, 100, 2, 2, 100⟩, .stream 0 0 59 false, .rst 0 24 59, .stop 0 35, .stream 4 0 118 false ]
+
+def F15_config : Config := ⟨.server, 2, 2, 100, 59, 2002⟩
 
 instance (s : State) : Decidable (Unsat s) := by unfold Unsat; exact inferInstance
 
